@@ -295,9 +295,32 @@ def scan_trusted(A):
 
 
 def run_verus(A, outpath, rlimit=50, timeout=900, extra=()):
+    """Runs Verus on the assembled text. The result is memoised on the sha256 of that exact text (+ flags):
+    the text is re-assembled from /repo on every run, only the solver call for byte-identical input is reused."""
     os.makedirs(os.path.dirname(outpath), exist_ok=True)
+    text = A.text()
+    key = hashlib.sha256((text + "|" + str(rlimit) + "|" + " ".join(extra)).encode()).hexdigest()
+    cdir = os.path.join(VERIF, ".build", "vcache")
+    os.makedirs(cdir, exist_ok=True)
+    cpath = os.path.join(cdir, key + ".json")
+    if os.environ.get("WW_NO_CACHE") != "1" and os.path.exists(cpath):
+        try:
+            res = json.load(open(cpath))
+            res["cached"] = True
+            return res
+        except Exception:
+            pass
+    res = _run_verus(A, text, outpath, rlimit, timeout, extra)
+    if res.get("status") in ("verified", "failed"):
+        tmp = cpath + ".%d.tmp" % os.getpid()
+        json.dump(res, open(tmp, "w"))
+        os.replace(tmp, cpath)
+    return res
+
+
+def _run_verus(A, text, outpath, rlimit, timeout, extra):
     with open(outpath, "w") as f:
-        f.write(A.text())
+        f.write(text)
     cmd = ["verus", outpath, "--output-json", "--time-expanded", "--multiple-errors", "40", "--error-format=json"]
     if rlimit:
         cmd += ["--rlimit", str(rlimit)]
